@@ -3,7 +3,8 @@
 Per block, what is decided (level: other; completeness of Two-Way, of the rolling hash and of the Shift-Or
 automaton are NOT):
   Two-Way fwd/rev   REL-POST at new (critical position, period/shift inside the needle, 2*shift >= len), PANIC-free
-                    (C14), Some(i) in range, POST-VERIFIED for the large-period variant, MEMO for the small-period one
+                    (C14), Some(i) in range, POST-VERIFIED (large period: the whole needle; small period: everything the shift
+                    memory does not vouch for), MEMO, SUFFIX-STEP (suffix scans), PERIOD-TEST (small/large classification)
   Rabin-Karp        Some(i) in range and POST-VERIFIED (a hash hit alone never answers), forward and reverse
   Shift-Or          new returns None exactly when needle.len() > 15 and otherwise stores that length (SPEC-POST);
                     Some(i) in range
@@ -18,7 +19,7 @@ PID = 'C12'
 ROOTS = (r"^arch::all::twoway::(Finder::(new|find)|FinderRev::(new|rfind))$|^arch::all::rabinkarp::(Finder::(new|find)|FinderRev::(new|rfind))$"
          r"|^arch::all::shiftor::Finder::(new|find)$"
          r"|^arch::(all|x86_64::sse2|x86_64::avx2|aarch64::neon|wasm32::simd128)::packedpair::Finder::(find|new|with_pair)$")
-FLOORS = {'REL-POST': 40, 'POST-VERIFIED': 6, 'MEMO': 2, 'SPEC-POST': 4, 'POST-NONE': 2, 'POST-FIRST': 2}
+FLOORS = {'REL-POST': 40, 'POST-VERIFIED': 6, 'MEMO': 2, 'SPEC-POST': 4, 'POST-NONE': 2, 'POST-FIRST': 2, 'SUFFIX-STEP': 2, 'PERIOD-TEST': 4}
 
 
 def run(ctx):
